@@ -147,7 +147,7 @@ Proof.
     assert (Tv' : takes_value (r_spec r) = true) by (rewrite Sr; exact Tv).
     assert (No' : a_optional (r_spec r) = false) by (rewrite Sr; exact No).
     destruct (set_value_str r s Tv') as [r' [SV [Sp [Rw [Nnone Hl]]]]].
-    { intros K. rewrite Sr in K. rewrite K in Hint. exact Hint. }
+    { rewrite Sr. exact Hint. }
     { intros K. eapply (sn_list _ _ _ St); eauto. }
     unfold occ_input. rewrite Vo, SV. unfold text_of.
     exists (Some (S (List.length done), o_arg o)), true.
@@ -173,7 +173,7 @@ Proof.
     assert (Tv' : takes_value (r_spec r) = true) by (rewrite Sr; exact Tv).
     assert (No' : a_optional (r_spec r) = false) by (rewrite Sr; exact No).
     destruct (set_value_str r s Tv') as [r' [SV [Sp [Rw [Nnone Hl]]]]].
-    { intros K. rewrite Sr in K. rewrite K in Hint. exact Hint. }
+    { rewrite Sr. exact Hint. }
     { intros K. eapply (sn_list _ _ _ St); eauto. }
     unfold occ_input. rewrite Vo, SV. unfold text_of.
     exists (Some (S (List.length done), o_arg o)), true.
@@ -222,13 +222,13 @@ Proof.
       - rewrite !andb_true_iff in Os. destruct Os as [[[[Tv _] _] Hint] _].
         assert (Tv' : takes_value (r_spec r) = true) by (rewrite Sr; exact Tv).
         destruct (set_value_str r s Tv') as [r' [SV' _]].
-        { intros K. rewrite Sr in K. rewrite K in Hint. exact Hint. }
+        { rewrite Sr. exact Hint. }
         { intros K. eapply (sn_list _ _ _ St); eauto. }
         unfold set_value, new_value in SV'. rewrite SV in SV'. discriminate.
       - rewrite !andb_true_iff in Os. destruct Os as [[[[Tv _] _] Hint] _].
         assert (Tv' : takes_value (r_spec r) = true) by (rewrite Sr; exact Tv).
         destruct (set_value_str r s Tv') as [r' [SV' _]].
-        { intros K. rewrite Sr in K. rewrite K in Hint. exact Hint. }
+        { rewrite Sr. exact Hint. }
         { intros K. eapply (sn_list _ _ _ St); eauto. }
         unfold set_value, new_value in SV'. rewrite SV in SV'. discriminate. }
   intros j rj Nj. destruct (Nat.eq_dec (o_arg o) j) as [<-|Ne].
@@ -242,10 +242,10 @@ Proof.
       * destruct b; [|discriminate]. rewrite !andb_true_iff, negb_true_iff in Os. tauto.
       * destruct b; [discriminate|]. rewrite !andb_true_iff, negb_true_iff in Os. tauto.
       * rewrite !andb_true_iff in Os. destruct Os as [[[[Tv _] _] _] _].
-        unfold takes_value in Tv. destruct (a_kind a); [| | discriminate |];
+        unfold takes_value in Tv. destruct (a_kind a); try discriminate;
           destruct (a_incrementable a); try discriminate; reflexivity.
       * rewrite !andb_true_iff in Os. destruct Os as [[[[Tv _] _] _] _].
-        unfold takes_value in Tv. destruct (a_kind a); [| | discriminate |];
+        unfold takes_value in Tv. destruct (a_kind a); try discriminate;
           destruct (a_incrementable a); try discriminate; reflexivity.
     + rewrite Sr. destruct (o_form o); try discriminate; destruct (o_val o) as [b|n|s|]; try discriminate.
       * destruct b; [|discriminate]. rewrite !andb_true_iff in Os. destruct Os as [Kb _].
